@@ -48,6 +48,8 @@ def gen_op(rng):
         s = V.rand_string(rng, 8 if rng.random() < 0.97 else rng.choice([64, 255, 256, 1000]))
         rel = rng.random()
         L = len(s) if rel < 0.4 else len(s) + rng.randrange(1, 5) if rel < 0.7 else max(0, len(s) - rng.randrange(1, 4))
+        if rng.random() < 0.03:
+            L = len(s) + rng.choice([253, 254, 255, 256, 1000, 64009, 64010, 70000, 200000])
         return (rng.choice(["add_fixed_string", "add_fixed_encoded_string"]), s, L, rng.random() < 0.5)
     return ("mode", rng.random() < 0.6)
 
@@ -61,6 +63,16 @@ def run(shard, rec, tier, seed):
     rng = random.Random("C09-%d-%d" % (seed, shard["part"]))
     for _ in range(shard["n"]):
         hist = [gen_op(rng) for _ in range(rng.randrange(2, 14))]
+        # the same string value written again later in the history (other method / other mode): a writer
+        # that remembers anything per string would show here
+        strs = [o for o in hist if o[0].startswith("add_") and len(o) > 1 and isinstance(o[1], str)]
+        if strs and rng.random() < 0.5:
+            src = rng.choice(strs)
+            s2 = src[1]
+            k = rng.randrange(len(hist) + 1)
+            extra = [("mode", rng.random() < 0.5), (rng.choice(["add_string", "add_encoded_string"]), s2)] if rng.random() < 0.5 else \
+                    [("mode", rng.random() < 0.5), (rng.choice(["add_fixed_string", "add_fixed_encoded_string"]), s2, len(s2) + rng.choice([0, 0, 2]), True)]
+            hist[k:k] = extra
         accepted = run_history(W, rec, hist)
         rec.case(hist, nontrivial=accepted >= 1)
     rec.sample({"history": hist})
